@@ -250,8 +250,7 @@ func NewUpstream(addr string, opt Opt) (_ Upstream, err error) {
 			quicConfig := newDefaultClientQuicConfig()
 			quicConfig.MaxIdleTimeout = idleConnTimeout
 
-			addonCloser = quicTransport
-			t = &http3.RoundTripper{
+			h3rt := &http3.RoundTripper{
 				TLSClientConfig: opt.TLSConfig,
 				QuicConfig:      quicConfig,
 				Dial: func(ctx context.Context, _ string, tlsCfg *tls.Config, cfg *quic.Config) (quic.EarlyConnection, error) {
@@ -263,6 +262,8 @@ func NewUpstream(addr string, opt Opt) (_ Upstream, err error) {
 				},
 				MaxResponseHeaderBytes: 4 * 1024,
 			}
+			t = h3rt
+			addonCloser = closers{h3rt, quicTransport, conn}
 		} else {
 			t1 := &http.Transport{
 				DialContext: func(ctx context.Context, network, addr string) (net.Conn, error) {
@@ -286,6 +287,7 @@ func NewUpstream(addr string, opt Opt) (_ Upstream, err error) {
 			t2.ReadIdleTimeout = time.Second * 30
 			t2.PingTimeout = time.Second * 5
 			t = t1
+			addonCloser = closeFunc(func() error { t1.CloseIdleConnections(); return nil })
 		}
 		opt := transport.DoHTransportOpts{
 			EndPointUrl:  addrURL.String(),
@@ -359,11 +361,26 @@ func NewUpstream(addr string, opt Opt) (_ Upstream, err error) {
 		return transport.NewQuicTransport(transport.QuicTransportOpts{
 			DialContext: dialQuicConn,
 			Logger:      logger,
+			Closer:      closers{t, uc}, // quic.Transport does not close a Conn it did not create
 		}), nil
 	default:
 		return nil, fmt.Errorf("unsupported protocol [%s]", addrURL.Scheme)
 	}
 }
+
+// closers closes its members in order.
+type closers []io.Closer
+
+func (cs closers) Close() error {
+	for _, c := range cs {
+		c.Close()
+	}
+	return nil
+}
+
+type closeFunc func() error
+
+func (f closeFunc) Close() error { return f() }
 
 type udpWithFallback struct {
 	u *transport.PipelineTransport
